@@ -940,3 +940,15 @@ Proof.
         eapply coerce_all_pyd; eauto; constructor
     end.
 Qed.
+
+(* the size limit on the INSERT path: once the stored set has MAX_CONFIG_SET_SIZE elements every
+   further INSERT is rejected (whatever the payload) *)
+Theorem p_insert_limit : forall sp o cur st l,
+  obj_set_setting sp (o_name o) st -> o_code o = OAdd -> existing st cur = VList l ->
+  (g_max_set <= length l)%nat -> exists e, apply_cell sp o cur = Err e.
+Proof.
+  intros sp o cur st l Hs Hc He Hl.
+  destruct (apply_cell sp o cur) as [c'|e] eqn:Ea; [|eauto].
+  destruct (p_set_insert _ _ _ _ _ _ Hs Hc He Ea) as [v [x [_ [_ [_ [_ [_ [Hlen _]]]]]]]].
+  rewrite app_length in Hlen. simpl in Hlen. lia.
+Qed.
